@@ -139,9 +139,101 @@ def case_oracle_roots(rec, n_inner, step_size, variant="identity"):
                    [], z3.BoolVal(False), syntactic=True)
 
 
+def case_implicit_roots(rec, ikind, step_size):
+    """'Fails loudly' for the implicit integrators when the implicit sub-step equations have SEVERAL solutions (position-dependent
+    metric 1 + q^2, large steps / fast momenta): the real integrator with (a) the real direct fixed-point solver and (b) oracle
+    solvers that return a root of x = func(x) selected by a deterministic rule of (root set, x0) - nearest to x0, second nearest,
+    smallest, largest; the rule is the explorer's choice.  Every run must end in an IntegratorError or in a state from which
+    the reversed step returns to the start.  (A reversibility check that does not repeat the solve a reversed trajectory
+    would perform - e.g. one warm-started at the known answer - is exposed here.)"""
+    import numpy as np
+    import z3
+    from scipy.optimize import brentq
+    from symx import weights as W
+    from mici.errors import IntegratorError, ConvergenceError
+    import mici.solvers as SO
+    I, S, ChainState = L.I, L.S, L.ChainState
+    cls = {"implicit_leapfrog": I.ImplicitLeapfrogIntegrator, "implicit_midpoint": I.ImplicitMidpointIntegrator}[ikind]
+    rec.encoded(cls._step, I.Integrator.step, SO.solve_fixed_point_direct)
+    system = S.DiagonalRiemannianMetricSystem(
+        lambda q: np.sum(q ** 2) / 2 + np.sum(q ** 4) / 12, grad_neg_log_dens=lambda q: q + q ** 3 / 3,
+        metric_diagonal_func=lambda q: 1 + q ** 2, vjp_metric_diagonal_func=lambda q: lambda m: 2 * m * q)
+    rule = [0]
+    grid = np.linspace(-60.0, 60.0, 2401)
+
+    def all_roots(func):
+        def g(x):
+            return float(x - np.asarray(func(np.array([x])), dtype=float).ravel()[0])
+        vals = [g(x) for x in grid]
+        roots = []
+        for a, b, fa, fb in zip(grid[:-1], grid[1:], vals[:-1], vals[1:]):
+            if fa == 0.0:
+                roots.append(a)
+            elif np.isfinite(fa) and np.isfinite(fb) and fa * fb < 0:
+                roots.append(brentq(g, a, b, xtol=1e-14, rtol=1e-15))
+        return roots
+
+    def oracle(func, x0, **kw):
+        roots = all_roots(func)
+        if not roots:
+            raise ConvergenceError("no fixed point in the search interval")
+        x0f = float(np.asarray(x0).ravel()[0])
+        near = sorted(roots, key=lambda r: abs(r - x0f))
+        r = {1: near[0], 2: near[min(1, len(near) - 1)], 3: min(roots), 4: max(roots)}[rule[0]]
+        x = np.array([r])
+        func(x)  # (the solvers leave the state at the returned iterate)
+        return x
+    viol, outcomes = {}, {}
+    starts = [(-0.07, -3.56), (0.0, -4.34), (-0.15, -3.17), (0.08, 2.77), (-0.18, -2.15), (-0.04, 3.12), (0.15, -3.43), (-0.06, -2.05),
+              (0.3, 0.7), (-0.4, 1.1), (1.2, 2.5), (-2.0, 4.0)]
+    for q0, p0 in starts:
+        def fn(ctx):
+            # (implicit midpoint solves for position and momentum jointly - a 2-D root set: real solver only)
+            rule[0] = ctx.decide(5) if ikind == "implicit_leapfrog" else 0
+            kw = {} if rule[0] == 0 else {"fixed_point_solver": oracle}
+            integ = cls(system, step_size, **kw)
+            st = ChainState(pos=np.array([q0]), mom=np.array([p0]), dir=1)
+            try:
+                s1 = integ.step(st)
+            except IntegratorError:
+                return ("raise", None)
+            if st.pos[0] != q0 or st.mom[0] != p0 or st.dir != 1:
+                return ("input-modified", None)
+            s1 = s1.copy()
+            s1.dir = -1
+            try:
+                s2 = integ.step(s1)
+            except IntegratorError:
+                return ("ret-noreverse", float("nan"))
+            return ("ret", float(max(abs(s2.pos[0] - q0), abs(s2.mom[0] - p0))))
+        for res, ctx in W.wexplore(fn, max_paths=1000):
+            rec.path()
+            outcomes[res[0]] = outcomes.get(res[0], 0) + 1
+            rec.decisions += len(ctx.trace)
+            r = [k for k, _ in ctx.trace]
+            if res[0] == "ret" and not res[1] < 1e-5 * (1 + abs(q0) + abs(p0)):
+                viol.setdefault("non-reversible-return", (f"{ikind}, metric 1+q^2, step {step_size}, start q={q0}, p={p0}, solver rule #{r}: step() returned a state whose "
+                                                          f"reversal misses the start by {res[1]:.3g} and no error was raised", [q0, p0, r]))
+            elif res[0] == "ret-noreverse":
+                viol.setdefault("non-reversible-return", (f"{ikind}, step {step_size}, start q={q0}, p={p0}, solver rule #{r}: step() returned a state from which the "
+                                                          f"reversed step fails", [q0, p0, r]))
+            elif res[0] == "input-modified":
+                viol.setdefault("input-modified", (f"{ikind}: step() modified its input state", [q0, p0, r]))
+    for k, (msg, data) in viol.items():
+        rec.candidate(key=f"implicit_roots/{ikind}:{k}", label=msg, payload={"oracle": data, "ikind": ikind, "step": step_size})
+    rec.note(f"{rec.paths} (start, solver rule) runs: {outcomes}")
+    if not outcomes or (ikind == "implicit_leapfrog" and (not outcomes.get("ret") or not outcomes.get("raise"))):
+        rec.errors.append(f"vacuous: outcomes {outcomes} (both returned and loudly failing runs are expected)")
+    rec.obligation(f"implicit sub-step equations with several roots ({ikind}, step {step_size}): every returned state reverses ({rec.paths} runs)",
+                   [], z3.BoolVal(False), syntactic=True)
+
+
 def cases(tier):
     out = []
     th = tier == "thorough"
+    for ikind in ("implicit_leapfrog", "implicit_midpoint"):
+        for step in (1.0, 1.5) + ((0.5, 2.0) if th else ()):
+            out.append(Case(f"implicit_roots/{ikind}/step{step}", case_implicit_roots, {"ikind": ikind, "step_size": step}, timeout_s=900))
     for n_inner in (1, 2, 3):
         for step in (0.4, 0.9):
             out.append(Case(f"oracle_roots/inner{n_inner}/step{step}", case_oracle_roots, {"n_inner": n_inner, "step_size": step}, timeout_s=600))
@@ -187,7 +279,7 @@ def cases(tier):
 
 
 def replay(cand):
-    if cand["key"].startswith("oracle_roots"):
+    if cand["key"].startswith(("oracle_roots", "implicit_roots")):
         return {"reproduced": True, "detail": cand["label"] + " (observed on the real integrator with concrete values and the recorded root choices)"}
     name = cand["key"].split("/", 1)[0]
     return replay_problem(PROBS[name], cand, rtol=1e-6)
